@@ -373,6 +373,21 @@ def _frac(v):
     raise HarnessError('model value not numeric: %s' % v)
 
 
+def _guarded_check(solver, seconds=40.0):
+    """check() of a fresh (non-incremental) solver under its rlimit plus a wall-clock guard that does not use z3's
+    own timer threads: a Python timer thread interrupts the context (the answer is then `unknown`)"""
+    import threading
+    t = threading.Timer(seconds, solver.ctx.interrupt)
+    t.daemon = True
+    t.start()
+    try:
+        return solver.check()
+    except z3.Z3Exception:
+        return z3.unknown
+    finally:
+        t.cancel()
+
+
 class Stats:
     def __init__(self):
         self.paths = 0
@@ -477,7 +492,7 @@ class Engine:
             s2.add(self.solver.assertions())
             for a in assumptions:
                 s2.add(a)
-            r = s2.check()
+            r = _guarded_check(s2)
             if r == z3.sat:
                 self._fresh_model = s2.model()
         self.stats.solver_s += time.perf_counter() - t0
@@ -837,7 +852,7 @@ class Engine:
             bad = [z3.Not(c) for (_, c, _) in symb] if not conc_false else []
             if bad:
                 s2.add(z3.Or(*bad) if len(bad) > 1 else bad[0])
-            r2 = s2.check()
+            r2 = _guarded_check(s2)
             if r2 == z3.sat:
                 self.model = s2.model()
             elif r2 == z3.unsat:
